@@ -783,10 +783,12 @@ fn family_registries(g: &mut G, rng: &mut Rng, thorough: bool) {
             g.ctx.nontrivial(&format!("errors {} {}", me, once));
             g.ctx.count("registry:errors");
             let n = if thorough { 60 } else { 25 };
-            let mut order: Vec<u128> = (0..n).map(|i| 500 + ((i * 7 + k as u128) % n)).collect();
-            if rng.bool() {
-                order.reverse();
-            }
+            // Failures happen in ASCENDING TOI order: the property (C17) bounds the LENGTH of the list; WHICH failed TOI
+            // is forgotten is a policy (the code and the model: the smallest TOI, `pop_first`).  With ascending
+            // failures "smallest first" and "oldest first" forget the same TOI, so a policy-preserving change of the
+            // container does not turn the correspondence red; any other eviction order still does.
+            let _ = rng.bool();
+            let order: Vec<u128> = (0..n).map(|i| 500 + i + k as u128).collect();
             for toi in &order {
                 // in-band FTI announces 3 symbols; the first one carries the close-object flag
                 let p = mk_pkt(*toi, None, 16, 8, true, 48, 0, 0, vec![1; 16], true, None);
